@@ -161,3 +161,97 @@ def sign_extend_task():
     res.absorb_stats(x.stats)
     res['functions'] = prof.names()
     return res
+
+
+def align_task(ns, pos_bits):
+    """the real Align.resolution_size(pos): fewest zero bytes 0..N-1 making pos+pad a multiple of N"""
+    res = TaskResult('align-kernel:%s' % (ns[:3],))
+    asm = asmshim.load_asm_shimmed()
+    real = asmshim.load_asm_pristine()
+    prof = common.FuncProfile()
+    x = core.Explorer(timeout_ms=120000)
+    for N in ns:
+        def fn(p, N=N):
+            pos = p.int('pos', lo=0, hi=(1 << pos_bits))
+            with prof:
+                return asm.Align(None, N).resolution_size(pos)
+        n = 0
+        for p, kind, val in x.run(fn):
+            if kind != 'ok':
+                res.inconc('align %d: %s %r' % (N, kind, val))
+                continue
+            n += 1
+            pos = x.inputs['pos']
+            model = p.witness()
+            cp = core.concrete(pos, model)
+            if real.Align(None, N).resolution_size(cp) != core.concrete(val, model):
+                res.inconc('align %d: witness mismatch at pos %d' % (N, cp))
+                continue
+            res['validated'] += 1
+            ob = And(val >= 0, val < N, ((pos + val) % N) == 0)
+            r, mdl = p.sat(Not(ob))
+            if r == 'sat':
+                bp = core.concrete(pos, mdl)
+                got = real.Align(None, N).resolution_size(bp)
+                if not (0 <= got < N and (bp + got) % N == 0):
+                    path = common.write_replay('C09', 'align_%d' % N, dict(kind='align', N=N, pos=bp, pad=got))
+                    res['violations'].append(dict(harness='align-kernel', kind='pad', N=N, pos=bp, pad=got, replay=path))
+                    res.oblig(False)
+                else:
+                    res.inconc('align %d: counterexample did not reproduce' % N)
+            else:
+                res.oblig(True if r == 'unsat' else None, 'unknown align %d' % N)
+        if n == 0:
+            res['vacuity'].append('align %d: no path' % N)
+    if ns:
+        res['samples'].append(dict(alignments=ns[:6], pos_bits=pos_bits))
+    res.absorb_stats(x.stats)
+    res['functions'] = prof.names()
+    return res
+
+
+def align_symN_task(nmax, pos_bits):
+    """symbolic alignment 1..nmax-1 and symbolic position"""
+    res = TaskResult('align-kernel-symN')
+    asm = asmshim.load_asm_shimmed()
+    real = asmshim.load_asm_pristine()
+    x = core.Explorer(timeout_ms=600000)
+    x.allow_symmod = True
+
+    def fn(p):
+        pos = p.int('pos', lo=0, hi=(1 << pos_bits))
+        N = p.int('N', lo=1, hi=nmax - 1)
+        return asm.Align(None, N).resolution_size(pos)
+
+    for p, kind, val in x.run(fn):
+        if kind != 'ok':
+            res.inconc('align symN: %s %r' % (kind, val))
+            continue
+        pos, N = x.inputs['pos'], x.inputs['N']
+        model = p.witness()
+        cp, cn = core.concrete(pos, model), core.concrete(N, model)
+        if real.Align(None, cn).resolution_size(cp) != core.concrete(val, model):
+            res.inconc('align symN: witness mismatch')
+            continue
+        res['validated'] += 1
+        # (pos+pad) % N == 0 with symbolic N: pos + pad == q * N for the quotient q
+        q = z3.BitVec('q', pos_bits + 2)
+        w = pos_bits + 10
+        tot = (pos + val)
+        ob = z3.And((val >= 0).b if isinstance(val >= 0, SymBool) else z3.BoolVal(bool(val >= 0)),
+                    (val < N).b if isinstance(val < N, SymBool) else z3.BoolVal(bool(val < N)),
+                    z3.URem(core._sx(tot.e if isinstance(tot, SymInt) else z3.BitVecVal(tot, w), w), core._sx(N.e, w)) == 0)
+        r, mdl = p.sat(z3.Not(ob))
+        if r == 'sat':
+            bp, bn = core.concrete(pos, mdl), core.concrete(N, mdl)
+            got = real.Align(None, bn).resolution_size(bp)
+            if not (0 <= got < bn and (bp + got) % bn == 0):
+                path = common.write_replay('C09', 'align_symN', dict(kind='align', N=bn, pos=bp, pad=got))
+                res['violations'].append(dict(harness='align-kernel', kind='pad', N=bn, pos=bp, pad=got, replay=path))
+                res.oblig(False)
+            else:
+                res.inconc('align symN counterexample did not reproduce')
+        else:
+            res.oblig(True if r == 'unsat' else None, 'unknown align symN')
+    res.absorb_stats(x.stats)
+    return res
